@@ -1025,6 +1025,19 @@ impl CompositionGraph {
             }
         }
 
+        // Any instantiation argument satisfied by the node becomes unsatisfied again
+        for (target, index) in self
+            .graph
+            .edges_directed(node.0, Direction::Outgoing)
+            .filter_map(|e| match e.weight() {
+                Edge::Argument(i) => Some((e.target(), *i)),
+                Edge::Alias(_) | Edge::Dependency => None,
+            })
+            .collect::<Vec<_>>()
+        {
+            self.graph[target].remove_satisfied_arg(index);
+        }
+
         // Remove the node from the graph
         log::debug!(
             "removing node {index} from the graph",
